@@ -25,6 +25,9 @@ type Req struct {
 	Path   string `json:"path"`
 	Host   string `json:"host"`
 	Accept string `json:"accept"`
+	Origin string `json:"origin,omitempty"`
+	ACRM   string `json:"acrm,omitempty"` // Access-Control-Request-Method
+	ACRH   string `json:"acrh,omitempty"` // Access-Control-Request-Headers
 }
 
 type PatProbe struct {
@@ -39,6 +42,7 @@ type HostOp struct {
 
 type Case struct {
 	Icpt     string     `json:"icpt"`
+	CORS     string     `json:"cors"` // none allowed list
 	Trace    bool       `json:"trace"`
 	Pool     []string   `json:"pool"`
 	Ops      []life.Op  `json:"ops"`
@@ -70,7 +74,7 @@ func hostile(t *rapid.T, label string, pool []string) string {
 
 func gen(t *rapid.T) Case {
 	cfg := pat.GenCfg(t, true)
-	c := Case{Icpt: cfg.IcptName, Trace: rapid.IntRange(0, 3).Draw(t, "trace") == 0}
+	c := Case{Icpt: cfg.IcptName, Trace: rapid.IntRange(0, 3).Draw(t, "trace") == 0, CORS: rapid.SampledFrom([]string{"none", "none", "allowed", "list"}).Draw(t, "cors")}
 	c.Pool = pat.GenPool(t, cfg, rapid.IntRange(2, rig.Up(10)).Draw(t, "npool"))
 	c.Ops = life.GenOps(t, cfg, c.Pool, rapid.IntRange(0, rig.Up(15)).Draw(t, "nops"),
 		life.GenOpts{Facades: true, Hostile: true, NewMethods: false, Trace: c.Trace})
@@ -84,6 +88,14 @@ func gen(t *rapid.T) Case {
 	}
 	for i, n := 0, rapid.IntRange(1, 8).Draw(t, "nreqs"); i < n; i++ {
 		r := Req{Method: hostile(t, "method", hostileMethods), Host: hostile(t, "host", hostileHosts), Accept: hostile(t, "accept", hostileAccept)}
+		if rapid.IntRange(0, 2).Draw(t, "corsHeaders") == 0 {
+			r.Origin = hostile(t, "origin", []string{"https://a.example", "null", "*", "\xff"})
+			r.ACRM = hostile(t, "acrm", []string{"GET", "DELETE", "BOGUS", " "})
+			r.ACRH = hostile(t, "acrh", []string{"Content-Type", "x-custom, ,", ",", "\xff"})
+			if rapid.Bool().Draw(t, "preflight") {
+				r.Method = "OPTIONS"
+			}
+		}
 		if rapid.IntRange(0, 1).Draw(t, "pathFromPool") == 0 {
 			r.Path = pat.GenPath(t, parsed)
 			if rapid.IntRange(0, 3).Draw(t, "sane") > 0 {
@@ -146,7 +158,14 @@ func short(s string) string {
 
 func check(c Case, st *rig.Stats) error {
 	env := rig.NewEnv()
-	s := life.NewSys(env, c.Icpt, rig.Opts{Trace: c.Trace})
+	var corsOpt []mux.Option
+	switch c.CORS {
+	case "allowed":
+		corsOpt = append(corsOpt, mux.WithAllowedCORS(60))
+	case "list":
+		corsOpt = append(corsOpt, mux.WithCORS([]string{"https://a.example"}, []string{"Content-Type"}, []string{"X-E"}, 0, true))
+	}
+	s := life.NewSys(env, c.Icpt, rig.Opts{Trace: c.Trace, Extra: corsOpt})
 	nontriv := false
 	var classes []string
 	for i, op := range c.Ops {
@@ -205,6 +224,15 @@ func check(c Case, st *rig.Stats) error {
 		hdr := map[string][]string{}
 		if q.Accept != "" {
 			hdr["Accept"] = []string{q.Accept}
+		}
+		if q.Origin != "" {
+			hdr["Origin"] = []string{q.Origin}
+		}
+		if q.ACRM != "" {
+			hdr["Access-Control-Request-Method"] = []string{q.ACRM}
+		}
+		if q.ACRH != "" {
+			hdr["Access-Control-Request-Headers"] = []string{q.ACRH}
 		}
 		hostileReq := q.Path == "" || q.Path == "*" || !utf8.ValidString(q.Path) || len(q.Path) > 60000 || !ref.IsKnownMethod(q.Method)
 		if hostileReq {
